@@ -215,6 +215,19 @@ def gen_pairing(rng):
         if k < 0.3:
             lines.append(b"    x;")
             continue
+        if k < 0.42:
+            # two C comments on one line: an end cannot close a begin of its own line
+            i1, i2 = rng.choice([b"a", b"b"]), rng.choice([b"a", b"b"])
+            first_end = rng.random() < 0.3
+            kws = [b"cppcheck-suppress-end", b"cppcheck-suppress-begin"] if first_end else [b"cppcheck-suppress-begin", b"cppcheck-suppress-end"]
+            lines.append(b"    /* " + kws[0] + b" " + i1 + b" */ /* " + kws[1] + b" " + i2 + b" */")
+            events.append([first_end, i1, b"", len(lines)])
+            events.append([not first_end, i2, b"", len(lines)])
+            if first_end:
+                pending = pending[:-1] + [(i2, b"")]
+            else:
+                pending = pending + [(i1, b"")]
+            continue
         end = rng.random() < (0.7 if pending else 0.15)
         kw = b"cppcheck-suppress-end" if end else b"cppcheck-suppress-begin"
         items = [(rng.choice([b"a", b"a", b"b", b"c"]), rng.choice([b"", b"", b"", b"s", b"t"])) for _ in range(rng.choice([1, 1, 1, 2, 3]))]
